@@ -41,8 +41,8 @@ def resolve_capture(agg, path):
         e = deep_strip(e)
         while e[0] in ("ref", "deref"):
             e = deep_strip(e[1])
-        if e[0] == "agg" and e[1][0] == "closure" and k < len(e[2]):
-            e = e[2][k]
+        if e[0] == "agg" and e[1][0] in ("closure", "adt", "tuple") and k is not None and k < len(e[2]):
+            e = e[2][k]            # a capture of a closure, or a field of a private wrapper the captured value was put into
         else:
             return None
     e = deep_strip(e)
